@@ -25,6 +25,14 @@ def WF_KEPT(a, r):
     return Implies(ok(r), wf(r[1].val()))
 
 
+def E_INST(a, r):
+    """the activity entered carries the instance tag of the requested one, or a brand-new one"""
+    vid = as_union(a.self).vehicle_id
+    n = r[1].val().vehicles.get(vid).val().vehicle_state
+    old = a.sim.vehicles.get(vid).val().vehicle_state
+    return Implies(ok(r), Or(n.instance_id == as_union(a.self).instance_id, n.instance_id != old.instance_id))
+
+
 def SHAPE(a, r):
     """a state and an error are never returned together (C09: all-or-nothing)"""
     return Or(ok(r), failed(r), nothing(r))
@@ -386,6 +394,7 @@ def register(R):
             return post
         for g, props in GROUP_PROPS.items():
             s.ensures(f"enter_{g}", mk(g), props + (tuple(extra_props) if g == "resources" else ()))
+        s.ensures("instance", E_INST, ("C09",))
         s.ensures("wf_kept", WF_KEPT, ("C08",))
         s.ensures("shape", SHAPE, ("C09",))
         s.no_raise(("C02",))
